@@ -186,11 +186,47 @@ Definition pin_wf (p : pin Rops) : Prop :=
   nonneg (p_psd Rops p) /\ 0 <= p_nucRate Rops p /\
   0 <= p_volRatio Rops p * p_volFactor Rops p.
 
+Lemma startX_length minR p : pin_wf p -> length (startX Rops minR p) = length (p_psd Rops p).
+Proof.
+  intros (Hn & Hb & _). unfold startX. rewrite processX_length; [reflexivity|]. rewrite mids_length. lia.
+Qed.
+Lemma startX_nonneg minR p : pin_wf p -> nonneg (startX Rops minR p).
+Proof. intros (_ & _ & _ & _ & Hp & _). unfold startX. apply processX_nonneg. exact Hp. Qed.
+
+Lemma newX_length dt minR p : pin_wf p -> length (newX Rops dt minR p) = length (p_psd Rops p).
+Proof.
+  intros Hwf. pose proof (startX_length minR p Hwf) as HS. destruct Hwf as (Hn & Hb & Hnf & _).
+  unfold newX. rewrite processX_length; rewrite ?updateX_length by lia; [lia|]. rewrite mids_length. lia.
+Qed.
+
 Lemma newX_nonneg dt minR p : pin_wf p -> 0 < dt -> nonneg (newX Rops dt minR p).
 Proof.
-  intros (Hn & Hb & Hnf & _ & Hp & Hnuc & _) Hdt. unfold newX. apply processX_nonneg.
-  apply updateX_nonneg; auto.
+  intros Hwf Hdt. pose proof (startX_length minR p Hwf) as HS. pose proof (startX_nonneg minR p Hwf) as HN.
+  destruct Hwf as (Hn & Hb & Hnf & _ & Hp & Hnuc & _). unfold newX. apply processX_nonneg.
+  apply updateX_nonneg; auto; lia.
 Qed.
+
+(* the full Euler step of one phase - zero the handed state below the thresholds, flux step from the zeroed state, zero again -
+   raises the number density by at most the nucleation rate times the step, counted from the STORED distribution *)
+Lemma full_step_density_bound dt minR p g : pin_wf p -> incr (p_bounds Rops p) -> 0 < dt ->
+  length g = S (length (p_psd Rops p)) ->
+  p_nf Rops p = netFlux Rops (p_bounds Rops p) (startX Rops minR p) g ->
+  sumR (newX Rops dt minR p) <= sumR (p_psd Rops p) + dt * p_nucRate Rops p.
+Proof.
+  intros Hwf Hi Hdt Hg Hnf. pose proof (startX_length minR p Hwf) as HS. pose proof (startX_nonneg minR p Hwf) as HN.
+  assert (HL : sumR (startX Rops minR p) <= sumR (p_psd Rops p)).
+  { destruct Hwf as (_ & _ & _ & _ & Hp & _). unfold startX. apply processX_le. exact Hp. }
+  destruct Hwf as (Hn & Hb & _ & _ & Hp & Hnuc & _).
+  unfold newX. rewrite Hnf. rewrite updateX_is_eulerStep.
+  pose proof (recorded_density_bound_all dt (p_bounds Rops p) (startX Rops minR p) g (p_nucRate Rops p) (p_Rnuc Rops p)
+                (p_rdfi Rops p) minR (mids Rops (p_bounds Rops p))) as B.
+  assert (W : wf (p_bounds Rops p) (startX Rops minR p) g) by (unfold wf; lia).
+  specialize (B W Hi HN Hdt Hnuc). lra.
+Qed.
+
+(* the zeroing of the start state never adds particles and changes nothing where the stored distribution is already empty *)
+Lemma startX_le minR p : pin_wf p -> sumR (startX Rops minR p) <= sumR (p_psd Rops p).
+Proof. intros (_ & _ & _ & _ & Hp & _). unfold startX. apply processX_le. exact Hp. Qed.
 
 Lemma mids_nonneg (l : list R) : Forall (fun b => 0 <= b) l -> Forall (fun b => 0 <= b) (mids Rops l).
 Proof.
@@ -288,8 +324,8 @@ Lemma stored_classes dt minR p :
 Proof.
   unfold kwnStore. destruct (p_adjust Rops p) as [|k b'|b' p'] eqn:E; cbn [adjusted fst snd].
   - apply unitOrEmpty_processX. intros k. apply truncate_values.
-  - apply unitOrEmpty_processX. apply unitOrEmpty_app; [intros j; apply truncate_values|apply unitOrEmpty_zeros].
-  - intros Hp. apply processX_nonneg. exact Hp.
+  - apply unitOrEmpty_app; [|apply unitOrEmpty_zeros]. apply unitOrEmpty_processX. intros j. apply truncate_values.
+  - intros Hp. exact Hp.
 Qed.
 
 Lemma stored_shape dt minR p : pin_wf p ->
@@ -300,17 +336,14 @@ Lemma stored_shape dt minR p : pin_wf p ->
   | Remesh b' p' => length b' = S (length p') -> length (snd (kwnStore Rops dt minR p)) = length p'
   end.
 Proof.
-  intros (Hn & Hb & Hnf & _). unfold kwnStore.
-  assert (HX : length (newX Rops dt minR p) = length (p_psd Rops p)).
-  { unfold newX. rewrite processX_length; rewrite ?updateX_length by exact Hnf; [reflexivity|].
-    rewrite mids_length. lia. }
+  intros Hwf. pose proof (newX_length dt minR p Hwf) as HX. destruct Hwf as (Hn & Hb & Hnf & _). unfold kwnStore.
+  pose proof (truncate_length (newX Rops dt minR p)) as HT.
+  assert (HP : length (processX Rops (p_rdfi' Rops p) minR (mids Rops (p_bounds Rops p)) (truncate Rops (newX Rops dt minR p))) = length (p_psd Rops p)).
+  { rewrite processX_length; [lia|]. rewrite mids_length. lia. }
   destruct (p_adjust Rops p) as [|k b'|b' p']; cbn [adjusted fst snd].
-  - pose proof (truncate_length (newX Rops dt minR p)) as HT.
-    rewrite processX_length; [lia|]. rewrite mids_length. lia.
-  - intros Hb'. pose proof (truncate_length (newX Rops dt minR p)) as HT.
-    pose proof (zerosN_length k) as HZ.
-    rewrite processX_length; rewrite app_length; [lia|]. rewrite mids_length. lia.
-  - intros Hb'. rewrite processX_length; [reflexivity|]. rewrite mids_length. lia.
+  - exact HP.
+  - intros Hb'. pose proof (zerosN_length k) as HZ. rewrite app_length. lia.
+  - intros Hb'. reflexivity.
 Qed.
 
 (* ---- composition never above the alloy composition when the precipitates are richer in the solute ---- *)
@@ -368,8 +401,7 @@ Proof.
     assert (Hk0 : 0 <= k) by (subst k ph; cbn [phaseIn volRatio volFactor]; Rnorm; exact Hk).
     assert (H3 : 0 <= momentFromN Rops (size Rops ph) (Nx Rops ph) 3) by (apply moment_nonneg; assumption).
     assert (HXl : length (Nx Rops ph) = length (p_psd Rops p)).
-    { subst ph. cbn [phaseIn Nx]. unfold newX. rewrite processX_length; rewrite ?updateX_length by exact Hnf; [reflexivity|].
-      rewrite mids_length. lia. }
+    { subst ph. cbn [phaseIn Nx]. apply newX_length. repeat split; assumption. }
     pose proof (weighted_ge (size Rops ph) (Nx Rops ph) (compAvg Rops (xbeta Rops ph) e) c 3 Hsz Hx) as W.
     assert (Wl : length (compAvg Rops (xbeta Rops ph) e) = length (size Rops ph)).
     { unfold compAvg, column. rewrite mids_length, map_length. subst ph. cbn [phaseIn xbeta size]. rewrite mids_length. lia. }
@@ -796,7 +828,9 @@ Proof. destruct l as [|x [|y [|z l]]]; simpl; intros; try discriminate; subst; r
 
 Lemma restPin_newX vf : newX Rops 1 0 (restPin vf) = [0; 1].
 Proof.
-  unfold newX, restPin. cbn [p_rdfi p_bounds p_psd p_nf p_nucRate p_Rnuc].
+  assert (S0 : startX Rops 0 (restPin vf) = [0; 1]).
+  { unfold startX, restPin. cbn [p_rdfi p_bounds p_psd]. unfold processX, half. Rdecide. f_equal. }
+  unfold newX. rewrite S0. unfold restPin. cbn [p_rdfi p_bounds p_psd p_nf p_nucRate p_Rnuc].
   destruct rest_update as (A & B & C). rewrite (list2 _ 0 1 A B C).
   unfold processX, half. Rdecide. f_equal.
 Qed.
